@@ -718,3 +718,156 @@ pub fn c02(thorough: bool, replay: Option<String>) -> i32 {
     rep.add_sub("shipped", &format!("{} modern programs under resources/tests with a readable (mod PARAMS ...) head, each in its own dialect x 8 configurations x argument trees from its parameter shape", n), n, true, capped, st);
     rep.finish()
 }
+
+// ---------------------------------------------------------------------------
+// C03 — classic compiler output computes what the source means
+
+fn classic_cases(thorough: bool) -> Vec<Case> {
+    let mut out: Vec<Case> = vec![];
+    // parameter shapes: main, and defun / inline called positionally through paths into ARGS
+    let flat: Vec<usize> = (1..=40).collect();
+    for p in param_patterns(if thorough { 4 } else { 3 }, &flat) {
+        if let Some(c) = params_case(&p, "main", None) {
+            out.push(c);
+        }
+        // positional call of a function with this parameter list, if it is a proper list at top level
+        let mut elems = vec![];
+        let mut cur = &p;
+        let proper = loop {
+            match cur {
+                Pat::Cons(a, b) => {
+                    elems.push((**a).clone());
+                    cur = b;
+                }
+                Pat::Nil => break true,
+                _ => break false,
+            }
+        };
+        if proper && !elems.is_empty() && true {
+            let mut names = vec![];
+            p.names(&mut names);
+            for inline in [false, true] {
+                let mut argexprs = vec![];
+                let mut path = E::v("ARGS");
+                for _ in 0..elems.len() {
+                    argexprs.push(E::prim("f", vec![path.clone()]));
+                    path = E::prim("r", vec![path]);
+                }
+                let obs = E::List(std::iter::once(E::int(300)).chain(names.iter().map(|n| E::Var(n.clone()))).collect());
+                let mut c1 = 0;
+                let mut c2 = 0;
+                let prog = Prog { sigil: None, params: Pat::n("ARGS"), helpers: vec![Helper::Fun { name: "F".into(), inline, params: p.clone(), body: obs }], body: E::Call("F".into(), argexprs, None) };
+                out.push(Case { prog, args: vec![arg_for(&p, &mut c1, 0), arg_for(&p, &mut c2, 1)], tags: vec![format!("classic/params/{}", if inline { "inline" } else { "defun" }), format!("leaves{}", names.len().min(9))] });
+            }
+        }
+    }
+    // operators and literals
+    for c in oplit_cases(None) {
+        let pos = c.tags[0].clone();
+        if pos.contains("let-binding") || c.tags[1] == "quote-bound-symbol" || c.tags[1] == "quote-free-symbol" {
+            continue;
+        }
+        // `%` and modpow are named by the classic compiler as well; keep everything else
+        out.push(c);
+    }
+    // binder chains restricted to what classic has
+    let classic_binders: Vec<usize> = BINDERS.iter().enumerate().filter(|(_, b)| ["defun", "inline", "macro", "if-branch"].contains(b)).map(|(i, _)| i).collect();
+    for c in scope_chains(if thorough { 3 } else { 2 }) {
+        if c.iter().all(|(b, _)| classic_binders.contains(b)) {
+            out.push(scope_case(&c, NamePolicy::Fresh, None));
+            out.push(scope_case(&c, NamePolicy::SameEverywhere, None));
+            if thorough {
+                out.push(scope_case(&c, NamePolicy::ShadowParams, None));
+            }
+        }
+    }
+    // recursion and kernels
+    for c in calls_cases(None, 2) {
+        if c.tags[0].starts_with("calls/recursion") || c.tags[0].starts_with("calls/mutual") || c.tags[0].starts_with("calls/constant") {
+            out.push(c);
+        }
+    }
+    for e in kernel_exprs(if thorough { 2 } else { 1 }) {
+        out.push(kernel_case(&e, 0, None));
+        out.push(kernel_case(&e, 1, None));
+        out.push(kernel_case(&e, 2, None));
+    }
+    out
+}
+
+pub fn c03(thorough: bool, replay: Option<String>) -> i32 {
+    let mut rep = Report::new("C03", if thorough { "thorough" } else { "quick" }, "exploration");
+    rep.rule = "every program of the classic-expressible sub-spaces (no sigil) is compiled through compile_clvm_text (the classic compiler written in CLVM, run with the optimiser) and run by clvmr on 2-3 valuations: whenever the reference interpreter returns v the classic build must return v; and the modern cl21 build of the same source must return the same value as the classic build whenever both return one (quoted symbols and unbound names are not generated). non-trivial = distinct (program, valuation) pairs where the reference returned a value and the classic build agreed"
+        .to_string();
+    rep.assumptions = vec!["reference interpreter and clvmr as in C01".to_string()];
+    if replay.is_some() {
+        let st = Stats::new();
+        rep.add_sub("replay", "re-run the check; replay files carry the program text and arguments", 0, false, false, st);
+        return rep.finish();
+    }
+    let cap = Some(Duration::from_secs(if thorough { 3000 } else { 50 }));
+    let cases = classic_cases(thorough);
+    let n = cases.len() as u64;
+    let cl21 = "*standard-cl-21*";
+    let (st, capped) = par_range(n, 2, cap, || (), |_, st, i| {
+        let case = &cases[i as usize];
+        let text = case.prog.text();
+        st.eval();
+        let classic = library_compile(&text, &[], true);
+        let mut p21 = case.prog.clone();
+        p21.sigil = Some(cl21);
+        let modern = modern_compile(&p21.text(), dialect_of(cl21), &ModernOpts::default());
+        let tag = format!("{}+{}", strip_variant(&case.tags[0]), strip_variant(case.tags.get(1).map(|s| s.as_str()).unwrap_or("")));
+        let code = match &classic {
+            Ok(c) => {
+                st.outcome("classic-accepted");
+                c.code.clone()
+            }
+            Err(e) if e.is_panic() => {
+                st.outcome("classic-PANIC");
+                st.violation(&format!("classic-panic/{}", tag), format!("{}: {}", text, e.msg()), text.len(), json!({"kind": "c03", "text": text}));
+                return;
+            }
+            Err(e) => {
+                st.outcome("classic-rejected");
+                st.count(&format!("rejected[{}]", e.msg().chars().take(50).collect::<String>()), 1);
+                return;
+            }
+        };
+        for a in &case.args {
+            let r = reference(&case.prog, a);
+            let got = consensus(&code, a);
+            let replay = json!({"kind": "c03", "text": text, "args": a.hex()});
+            if let Ok(v) = &r {
+                match &got {
+                    Out::Val(g) if g == v => {
+                        st.count("agrees-with-reference", 1);
+                        st.nontrivial(&(&text, a));
+                        st.sample(json!({"program": text, "args": a.short(), "value": v.short()}));
+                    }
+                    Out::Limit => {}
+                    other => {
+                        st.outcome("DISAGREES-WITH-REFERENCE");
+                        let cls = if !case.prog.helpers.iter().all(|h| !matches!(h, Helper::Fun { params, .. } if pat_has_at(params))) { "function/@-capture-in-parameter-list".to_string() } else { format!("vs-reference/{}", tag) };
+                        st.violation(&cls, format!("{} on {}: source means {}, classic build gives {}", text, a.short(), v.short(), other.short()), text.len(), replay.clone());
+                    }
+                }
+            }
+            if let Ok(m) = &modern {
+                if let (Out::Val(x), Out::Val(y)) = (&got, consensus(&m.code, a)) {
+                    if *x == y {
+                        st.count("classic==cl21", 1);
+                    } else if r.as_ref().ok() == Some(x) {
+                        // the classic build is right and cl21 is wrong: C01's business
+                        st.count("cl21-differs-but-classic-matches-reference", 1);
+                    } else {
+                        st.outcome("CLASSIC-VS-CL21");
+                        st.violation(&format!("classic-vs-cl21/{}", tag), format!("{} on {}: classic build gives {}, cl21 build gives {}", text, a.short(), x.short(), y.short()), text.len(), replay);
+                    }
+                }
+            }
+        }
+    });
+    rep.add_sub("classic-programs", &format!("{} programs: every parameter tree with <= {} leaves and flat/improper lists up to 40 as main / defun / defun-inline parameters, every literal and operator in 6 positions, binder chains over defun/inline/macro/if, recursion, constant calls, kernels", n, if thorough { 4 } else { 3 }), n, true, capped, st);
+    rep.finish()
+}
